@@ -1,10 +1,12 @@
 package suites
 
 import (
+	"bufio"
 	"bytes"
 	"encoding/base64"
 	"fmt"
 	"math/rand"
+	"net"
 	"os"
 	"regexp"
 	"sort"
@@ -774,6 +776,264 @@ func fixedSessionCases() []Case {
 	return out
 }
 
+// ---- scripted connections: sasl.fault, sasl.reconnect ---------------------------
+
+// faultConn is the client's end of the pipe.  The occ-th write (counted from 0) that
+// begins with prefix fails with errText, and so does every write after it: a link that
+// breaks in the sending direction at exactly that line.  Reads keep working.
+type faultConn struct {
+	net.Conn
+	mu      sync.Mutex
+	prefix  string
+	occ     int
+	errText string
+	seen    int
+	failed  bool
+	armed   bool
+}
+
+func (f *faultConn) Write(b []byte) (int, error) {
+	f.mu.Lock()
+	if f.armed && !f.failed && strings.HasPrefix(string(b), f.prefix) {
+		if f.seen == f.occ {
+			f.failed = true
+		}
+		f.seen++
+	}
+	failed := f.failed
+	f.mu.Unlock()
+	if failed {
+		return 0, fmt.Errorf("%s", f.errText)
+	}
+	return f.Conn.Write(b)
+}
+
+// scriptedConnect runs one connection of cl against a server that advertises and
+// acknowledges sasl, invites the response with "AUTHENTICATE +", answers the complete
+// response with the numeric final ("903"/"904"), and, when the client has sent CAP END,
+// lets the harness call Cmd.Oper (oper != nil) before closing.  It returns the lines the
+// client wrote, Connect's result, and whether everything finished in time.
+func scriptedConnect(cl *girc.Client, method, final string, oper func(), wrap func(net.Conn) net.Conn) ([]string, error, bool) {
+	in, out := net.Pipe()
+	var conn net.Conn = out
+	if wrap != nil {
+		conn = wrap(out)
+	}
+	done := make(chan error, 1)
+	go func() { done <- cl.MockConnect(conn) }()
+	var mu sync.Mutex
+	var lines []string
+	capEnd, operSeen := make(chan struct{}, 1), make(chan struct{}, 1)
+	send := func(l string) {
+		_ = in.SetWriteDeadline(time.Now().Add(20 * time.Second))
+		_, _ = in.Write([]byte(l + "\r\n"))
+	}
+	go func() {
+		r := bufio.NewReader(in)
+		for {
+			l, err := r.ReadString('\n')
+			if l != "" {
+				l = strings.TrimSuffix(l, "\r\n")
+				mu.Lock()
+				lines = append(lines, l)
+				mu.Unlock()
+				switch {
+				case strings.HasPrefix(l, "USER "):
+					send(":srv CAP * LS :sasl")
+				case strings.HasPrefix(l, "CAP REQ"):
+					send(":srv CAP * ACK :sasl")
+				case l == "AUTHENTICATE "+method:
+					send("AUTHENTICATE +")
+				case strings.HasPrefix(l, "AUTHENTICATE "):
+					if len(l)-len("AUTHENTICATE ") < 400 {
+						send(":srv " + final + " me :" + numericTexts[final])
+					}
+				case l == "CAP END":
+					capEnd <- struct{}{}
+				case strings.HasPrefix(l, "OPER "):
+					operSeen <- struct{}{}
+				}
+			}
+			if err != nil {
+				return
+			}
+		}
+	}()
+	snapshot := func() []string {
+		mu.Lock()
+		defer mu.Unlock()
+		return append([]string{}, lines...)
+	}
+	timeout := time.After(30 * time.Second)
+	finish := func(err error) ([]string, error, bool) {
+		in.Close()
+		return snapshot(), err, true
+	}
+	select {
+	case err := <-done:
+		return finish(err)
+	case <-capEnd:
+	case <-timeout:
+		in.Close()
+		return snapshot(), nil, false
+	}
+	if oper != nil {
+		oper()
+		select {
+		case err := <-done:
+			return finish(err)
+		case <-operSeen:
+		case <-timeout:
+			in.Close()
+			return snapshot(), nil, false
+		}
+	}
+	cl.Close()
+	select {
+	case err := <-done:
+		return finish(err)
+	case <-timeout:
+		in.Close()
+		return snapshot(), nil, false
+	}
+}
+
+func sessionMech(kind, a1, a2 string) (girc.SASLMech, []string) {
+	switch kind {
+	case "P":
+		return &girc.SASLPlain{User: a1, Pass: a2}, []string{a2, refB64(a1 + "\x00" + a1 + "\x00" + a2), a1 + "\x00" + a1 + "\x00" + a2}
+	case "E":
+		return &girc.SASLExternal{Identity: a1}, []string{a1}
+	default:
+		return &fixedMech{a1, a2}, []string{a2}
+	}
+}
+
+func errClass(err error) string {
+	switch err.(type) {
+	case nil:
+		return "nil"
+	case *girc.ErrEvent:
+		return "errevent"
+	default:
+		return "other"
+	}
+}
+
+const cleanupPrefix = "received error, beginning cleanup: "
+
+// runFault: one connection in which the write of one chosen line fails.
+// Case: kind a1 a2 serverpass webircpass operuser operpass prefix occurrence errtext.
+func runFault(c Case) Result {
+	for len(c) < 10 {
+		c = append(c, "")
+	}
+	kind, a1, a2, spass, wpass, ou, op, prefix, errText := c[0], c[1], c[2], c[3], c[4], c[5], c[6], c[7], c[9]
+	occ := 0
+	fmt.Sscanf(c[8], "%d", &occ)
+	cfg := drive.BaseConfig()
+	cfg.DisableSTS = true
+	dbg, out := &lockedBuf{}, &lockedBuf{}
+	cfg.Debug, cfg.Out = dbg, out
+	mech, secrets := sessionMech(kind, a1, a2)
+	cfg.SASL = mech
+	cfg.ServerPass = spass
+	if wpass != "" {
+		cfg.WebIRC = girc.WebIRC{Password: wpass, Gateway: "gw", Hostname: "host.example", Address: "192.0.2.7"}
+	}
+	secrets = append(secrets, spass, wpass, op)
+	cl := girc.New(cfg)
+	fc := &faultConn{prefix: prefix, occ: occ, errText: errText, armed: prefix != ""}
+	lines, err, ok := scriptedConnect(cl, mech.Method(), "903", func() { cl.Cmd.Oper(ou, op) }, func(n net.Conn) net.Conn { fc.Conn = n; return fc })
+	res := Result{Sig: kind + "/" + strings.TrimSpace(prefix) + c[8]}
+	var oracle []string
+	if !ok {
+		oracle = append(oracle, "harness-timeout: the scripted connection did not finish")
+	}
+	fc.mu.Lock()
+	fired := fc.failed
+	fc.mu.Unlock()
+	if prefix != "" && !fired {
+		oracle = append(oracle, fmt.Sprintf("harness-fault-not-reached: no %d-th line starting with %q was written (lines %q)", occ, prefix, lines))
+	}
+	dtext, otext := dbg.String(), out.String()
+	cleanup := "-"
+	for _, m := range debugMessages(dtext) {
+		if strings.HasPrefix(m, cleanupPrefix) {
+			cleanup = "=" + B(strings.Contains(m, errText))
+			break
+		}
+	}
+	etext := "-"
+	if err != nil {
+		etext = "=" + B(strings.Contains(err.Error(), errText))
+	}
+	// projected: is the I/O error still named by Connect's result and by the cleanup line
+	// (wrapping it is fine; what it may be wrapped WITH is the oracle's business)
+	res.Obs = "E" + etext + ";C" + cleanup
+	if w := leak(dtext, secrets); w != "" {
+		oracle = append(oracle, fmt.Sprintf("secret-in-debug: Config.Debug contains %q, part of a credential, after the write of line %q #%d failed", w, prefix, occ))
+	}
+	if w := leak(otext, secrets); w != "" {
+		oracle = append(oracle, fmt.Sprintf("secret-in-out: Config.Out contains %q, part of a credential, after the write of line %q #%d failed", w, prefix, occ))
+	}
+	if err != nil {
+		if w := leak(err.Error(), secrets); w != "" {
+			oracle = append(oracle, fmt.Sprintf("secret-in-error: the error returned by Connect contains %q, part of a credential, after the write of line %q #%d failed", w, prefix, occ))
+		}
+	}
+	res.Oracle = strings.Join(oracle, " | ")
+	return res
+}
+
+// payloadLines: the AUTHENTICATE lines after the one naming the mechanism
+func payloadLines(lines []string, method string) []string {
+	var out []string
+	for _, l := range lines {
+		if strings.HasPrefix(l, "AUTHENTICATE ") && l != "AUTHENTICATE "+method {
+			out = append(out, strings.TrimPrefix(l, "AUTHENTICATE "))
+		}
+	}
+	return out
+}
+
+// runReconnect: two consecutive connections of one client that share one *SASLPlain; the
+// application corrects the credential in between.  Case: user1 pass1 user2 pass2.
+func runReconnect(c Case) Result {
+	for len(c) < 4 {
+		c = append(c, "")
+	}
+	cfg := drive.BaseConfig()
+	cfg.DisableSTS = true
+	creds := &girc.SASLPlain{User: c[0], Pass: c[1]}
+	cfg.SASL = creds
+	cl := girc.New(cfg)
+	var oracle []string
+	l1, e1, ok1 := scriptedConnect(cl, "PLAIN", "904", nil, nil)
+	creds.User, creds.Pass = c[2], c[3]
+	l2, e2, ok2 := scriptedConnect(cl, "PLAIN", "903", nil, nil)
+	if !ok1 || !ok2 {
+		oracle = append(oracle, "harness-timeout: a scripted connection did not finish")
+	}
+	p1, p2 := payloadLines(l1, "PLAIN"), payloadLines(l2, "PLAIN")
+	check := func(n int, got []string, u, p string) {
+		want := splitEvery(refB64(u+"\x00"+u+"\x00"+p), 400)
+		if len(want[len(want)-1]) == 400 {
+			want = append(want, "+")
+		}
+		if strings.Join(got, "\n") != strings.Join(want, "\n") {
+			oracle = append(oracle, fmt.Sprintf("plain-response-stale: connection %d did not deliver base64(user NUL user NUL password) of the credential configured at that time (user %x pass %x)", n, u, p))
+		}
+	}
+	check(1, p1, c[0], c[1])
+	check(2, p2, c[2], c[3])
+	if errClass(e1) != "errevent" {
+		oracle = append(oracle, fmt.Sprintf("failure-not-fatal: 904 on the first connection: Connect returned %T", e1))
+	}
+	return Result{Obs: "A=" + HexList(p1) + ";" + errClass(e1) + ";B=" + HexList(p2) + ";" + errClass(e2),
+		Oracle: strings.Join(oracle, " | "), Sig: "resp" + lenBucket(len(strings.Join(p1, ""))) + "/resp" + lenBucket(len(strings.Join(p2, "")))}
+}
+
 // ---- sasl.log ---------------------------------------------------------------
 
 // text without IRC format codes (StripRaw is the identity on it)
@@ -977,6 +1237,142 @@ func init() {
 		Fixed: fixedSessionCases,
 		Gen:   genSessionCase,
 		Run:   runSession,
+	})
+	Register(&Suite{
+		Name: "sasl.plainseq",
+		Prop: []string{"C09"},
+		Fixed: func() []Case {
+			return []Case{
+				{"alice", "one", "+", "alice", "two", "+", "bob", "two", "+"},
+				{"u", "p", "x", "u", "p", "+", "u", "q", "+"},
+				{"u", "p", "+", "", "", "+", "u", "p", "+"},
+				{"acct", "mistyped-password", "+", "acct", "correct-password", "+"},
+			}
+		},
+		Gen: func(r *rand.Rand) Case {
+			var c Case
+			u, p := plainCreds(r, 4*(1+r.Intn(30)))
+			for i, n := 0, 2+r.Intn(4); i < n; i++ {
+				switch r.Intn(4) {
+				case 0:
+					p = RandBytes(r, r.Intn(24), "")
+				case 1:
+					u = RandBytes(r, r.Intn(12), "")
+				case 2:
+					u, p = plainCreds(r, plainTargets[r.Intn(6)])
+				}
+				c = append(c, u, p, Pick(r, "+", "+", "+", "+", "x", ""))
+			}
+			return c
+		},
+		Run: func(c Case) Result {
+			m := &girc.SASLPlain{}
+			var got []string
+			res := Result{Sig: fmt.Sprint("steps", len(c)/3)}
+			for i := 0; i+2 < len(c); i += 3 {
+				m.User, m.Pass = c[i], c[i+1]
+				r := m.Encode([]string{c[i+2]})
+				got = append(got, r)
+				want := ""
+				if c[i+2] == "+" {
+					want = refB64(c[i] + "\x00" + c[i] + "\x00" + c[i+1])
+				}
+				if r != want && res.Oracle == "" {
+					res.Oracle = fmt.Sprintf("plain-response-stale: Encode call %d on one SASLPlain value is not base64(user NUL user NUL password) of its CURRENT fields (user %x pass %x)", i/3+1, c[i], c[i+1])
+				}
+			}
+			res.Obs = HexList(got)
+			return res
+		},
+	})
+	Register(&Suite{
+		Name: "sasl.reconnect",
+		Prop: []string{"C09"},
+		Fixed: func() []Case {
+			r := rand.New(rand.NewSource(911))
+			out := []Case{{"acct", "mistyped-password", "acct", "correct-password"}, {"alice", "pw", "bob", "pw"}}
+			for _, n := range []int{396, 400, 404, 800} {
+				u, p := plainCreds(r, n)
+				u2, p2 := plainCreds(r, 64)
+				out = append(out, Case{u, p, u2, p2}, Case{u2, p2, u, p})
+			}
+			return out
+		},
+		Gen: func(r *rand.Rand) Case {
+			u, p := plainCreds(r, 4*(1+r.Intn(40)))
+			u2, p2 := u, RandBytes(r, 1+r.Intn(24), "")
+			if r.Intn(3) == 0 {
+				u2, p2 = plainCreds(r, plainTargets[r.Intn(8)])
+			}
+			return Case{u, p, u2, p2}
+		},
+		Run: runReconnect,
+	})
+	Register(&Suite{
+		Name: "sasl.fault",
+		Prop: []string{"C09"},
+		Fixed: func() []Case {
+			r := rand.New(rand.NewSource(912))
+			var out []Case
+			for _, n := range []int{64, 804} {
+				u, p := plainCreds(r, n)
+				base := Case{"P", u, p, randSecret(r), randSecret(r), "operuser", randSecret(r)}
+				targets := [][2]string{{"PASS ", "0"}, {"WEBIRC ", "0"}, {"AUTHENTICATE ", "0"}, {"AUTHENTICATE ", "1"}, {"OPER ", "0"}, {"NICK ", "0"}, {"CAP END", "0"}, {"", "0"}}
+				if n > 800 {
+					targets = append(targets, [2]string{"AUTHENTICATE ", "2"}, [2]string{"AUTHENTICATE ", "3"})
+				}
+				for _, t := range targets {
+					out = append(out, append(append(Case{}, base...), t[0], t[1], "write: broken pipe"))
+				}
+			}
+			out = append(out, Case{"C", "XMECH", RandBytes(r, 400, b64Alphabet), "", "", "operuser", randSecret(r), "AUTHENTICATE ", "2", "injected write fault"},
+				Case{"E", RandBytes(r, 40, b64Alphabet), "", "", "", "operuser", randSecret(r), "AUTHENTICATE ", "1", "injected write fault"})
+			return out
+		},
+		Gen: func(r *rand.Rand) Case {
+			var kind, a1, a2, resp string
+			switch r.Intn(4) {
+			case 0:
+				kind, a1, a2 = "C", "XMECH", RandBytes(r, saslTargets[1+r.Intn(len(saslTargets)-1)], b64Alphabet)
+				resp = a2
+			case 1:
+				kind, a1 = "E", RandBytes(r, 8+r.Intn(60), b64Alphabet)
+				resp = a1
+			default:
+				kind = "P"
+				a1, a2 = plainCreds(r, plainTargets[r.Intn(len(plainTargets)-2)])
+				resp = refB64(a1 + "\x00" + a1 + "\x00" + a2)
+			}
+			nPayload := len(splitEvery(resp, 400))
+			if len(resp)%400 == 0 {
+				nPayload++
+			}
+			spass, wpass := "", ""
+			if r.Intn(3) > 0 {
+				spass = randSecret(r)
+			}
+			if r.Intn(2) == 0 {
+				wpass = randSecret(r)
+			}
+			type tg struct {
+				p string
+				o int
+			}
+			ts := []tg{{"OPER ", 0}, {"OPER ", 0}, {"NICK ", 0}, {"USER ", 0}, {"CAP REQ", 0}, {"CAP END", 0}, {"CAP LS", 0}, {"", 0}}
+			for k := 0; k <= nPayload; k++ {
+				ts = append(ts, tg{"AUTHENTICATE ", k}, tg{"AUTHENTICATE ", k})
+			}
+			if spass != "" {
+				ts = append(ts, tg{"PASS ", 0}, tg{"PASS ", 0}, tg{"PASS ", 0})
+			}
+			if wpass != "" {
+				ts = append(ts, tg{"WEBIRC ", 0}, tg{"WEBIRC ", 0}, tg{"WEBIRC ", 0})
+			}
+			t := ts[r.Intn(len(ts))]
+			return Case{kind, a1, a2, spass, wpass, "operuser", randSecret(r), t.p, fmt.Sprint(t.o),
+				Pick(r, "write: broken pipe", "injected write fault", "write tcp 192.0.2.1:6667: connection reset by peer", RandBytes(r, 1+r.Intn(20), safeSecretAlphabet))}
+		},
+		Run: runFault,
 	})
 	Register(&Suite{
 		Name: "sasl.log",
